@@ -60,6 +60,8 @@ def run(ctx):
     ctx.coq_props()
     from ..density import density_correspondence
     density_correspondence(ctx)
+    from ..cognitive import cognitive_correspondence
+    cognitive_correspondence(ctx)
     recs = []
     ns = 5 if ctx.is_quick else 60
     for kind in S.ALL_KINDS:
